@@ -73,6 +73,14 @@ def placeable(s, sec):
     return True
 
 
+def _raises(text):
+    try:
+        lasio.read(text)
+        return False
+    except Exception:
+        return True
+
+
 def build(sec, title, mn, strings):
     lines = ["~Version", "VERS. 2.0 : v", "WRAP. NO : w"]
     # generic items get distinct mnemonics (lasio renumbers duplicates in cubic time); API / UWI must keep their name
@@ -127,7 +135,22 @@ def run(ctx):
         for i in range(0, len(ok), step):
             chunk = ok[i:i + step]
             text = build(sec, title, mn, chunk)
-            las = lasio.read(text)
+            try:
+                las = lasio.read(text)
+            except Exception:
+                # a value that makes read() fail is an observation, not a harness problem: find it one by one
+                for s1 in chunk:
+                    try:
+                        lasio.read(build(sec, title, mn, [s1]))
+                    except Exception as e1:
+                        fits, finite, d = facts(s1)
+                        events.append({"op": "num", "s": [ord(c) for c in s1] if all(ord(c) < 2 ** 20 for c in s1) else [0],
+                                       "sec": sec, "mn": mn.upper(), "obs": "exc:" + type(e1).__name__, "eq": False,
+                                       "fits64": bool(fits), "finite": bool(finite)})
+                chunk = [s1 for s1 in chunk if not _raises(build(sec, title, mn, [s1]))]
+                if not chunk:
+                    continue
+                las = lasio.read(build(sec, title, mn, chunk))
             ctx.evaluations += 1
             section = {"V": las.version, "W": las.well, "P": las.params, "C": las.curves}.get(sec)
             if section is None:
